@@ -8,6 +8,7 @@ CONSTANTS
   FIXOHEXP = TRUE
   FIXOHFLG = TRUE
   FIXOHSEC = TRUE
+  PEERIMPL = FALSE
   XorAcc <- SymXor
   GEN = TRUE
 INVARIANTS ErrIsAtomic StdAgree EndsSwap ExpiryTotal SetSecondAgree Emit
